@@ -438,6 +438,9 @@ func (n *natsCase) doIsOpen() {
 func (n *natsCase) doRequest() {
 	ctx, frame, want := prepRequest([]byte(fmt.Sprintf("nats-%d", len(n.d.trace))))
 	ctx.SetTimeout(30 * time.Second)
+	if !(n.open && n.up) {
+		ctx.SetTimeout(250 * time.Millisecond) // no answer is due; only "an error, not a response" is judged
+	}
 	type rr struct {
 		b   []byte
 		err error
